@@ -27,6 +27,17 @@ def translate():
     return translate_ops.translate()
 
 
+def _pow2_divisors(rng, ln):
+    """divisors: powers of two so that the quotient stays exact"""
+    toks = ln.split()
+    for i, t in enumerate(toks):
+        if t.startswith('vals='):
+            toks[i] = 'vals=' + ','.join(rng.choice(['1', '2', '-2', '4', '1^1', '-1']) for _ in t[5:].split(','))
+        elif t.startswith('val='):
+            toks[i] = 'val=' + rng.choice(['1', '2', '-2', '4', '1^1'])
+    return ' '.join(toks)
+
+
 def histories(rng, tier):
     n = 500 if tier == 'quick' else 3000
     out = []
@@ -52,7 +63,23 @@ def histories(rng, tier):
             cfgs.append(ci)
         h = [c.line() for c in cfgs]
         base = rng.sample(range(c0.ncov), min(c0.ncov, 5))
+        first_lines = []
         for c in cfgs:
+            if c is not c0 and first_lines and name.endswith('_intersection') and rng.random() < 0.6:
+                # the same pixels as the first map, fresh values: a large common valid set for intersections
+                for ln0 in first_lines:
+                    toks = ln0.split()
+                    toks[1] = c.name
+                    for i, t in enumerate(toks):
+                        if t.startswith('vals='):
+                            toks[i] = 'vals=' + ','.join(c.val(rng) for _ in t[5:].split(','))
+                        elif t.startswith('val='):
+                            toks[i] = 'val=' + c.val(rng)
+                    ln = ' '.join(toks)
+                    if 'divide' in name and c.is_flt:
+                        ln = _pow2_divisors(rng, ln)
+                    h.append(ln)
+                continue
             rel = rng.choice(['same', 'same', 'sub', 'disjoint', 'any', 'empty'])
             focus = {'same': base[:3], 'sub': base[:1], 'disjoint': base[3:] or base[:1], 'empty': [],
                      'any': rng.sample(range(c.ncov), min(c.ncov, rng.randint(1, 4)))}[rel]
@@ -63,16 +90,10 @@ def histories(rng, tier):
             for _ in range(rng.randint(1, 4)):
                 ln = gen.upd_line(rng, c, focus=focus)
                 if 'divide' in name and c.name != 'm0' and c.is_flt:
-                    # divisors: powers of two so that the quotient stays exact
-                    toks = ln.split()
-                    for i, t in enumerate(toks):
-                        if t.startswith('vals='):
-                            toks[i] = 'vals=' + ','.join(rng.choice(['1', '2', '-2', '4', '1^1', '-1'])
-                                                         for _ in t[5:].split(','))
-                        elif t.startswith('val='):
-                            toks[i] = 'val=' + rng.choice(['1', '2', '-2', '4', '1^1'])
-                    ln = ' '.join(toks)
+                    ln = _pow2_divisors(rng, ln)
                 h.append(ln)
+                if c is c0:
+                    first_lines.append(ln)
         names = ','.join(c.name for c in cfgs)
         if name.startswith('ufunc_'):
             uf = rng.choice(['add', 'multiply', 'fmax', 'fmin', 'subtract'])
